@@ -12,7 +12,7 @@ func init() {
 	registerProperty(&PropertyInfo{
 		ID:    "C01",
 		Title: "Batches apply atomically and exactly as the abstract index says",
-		Rules: []string{"C01.R1", "C01.R2", "C01.R3"},
+		Rules: []string{"C01.R1", "C01.R2", "C01.R3", "C06.R1", "C06.R2", "C06.R5", "C04.R2"},
 		Decides: "shape conditions without which some history necessarily diverges from the abstract index: Update records both the id and the document, Delete only the id, Insert only the document, and the public Writer methods reach index.Writer.Batch through exactly these mutators; every segmentSnapshot literal that carries a segment of the current root over into a new root carries that root element's deleted set along (directly, or OR-ed with the new obsoletions; a nil deleted set only behind the IsEmpty test or on the edge where the old set is nil); no field or element of a Snapshot / segmentSnapshot is written unless the object was allocated in the same function (or is owned by such an object) and has not been published yet.",
 		NotCovered: "that DocsMatchingTerms and the segment library compute the right document sets; counts and stored bytes; behaviour for a batch naming the same id twice.",
 	})
